@@ -262,6 +262,25 @@ pub fn scenarios() -> Vec<Vec<Op>> {
             ]);
         }
     } }
+    // a formula chain over a block of numbers, then one content-changing operation inside the
+    // block: undo, redo and replay must leave the dependants re-evaluated (a forward/backward
+    // arm that forgets to request evaluation shows only when a formula reads the changed cells)
+    let deps: Vec<Op> = vec![
+        Op::Input { sheet: 0, row: 12, col: 1, text: "=SUM(A1:C3)+B2*2".into() },
+        Op::Input { sheet: 0, row: 12, col: 2, text: "=A12+A1".into() },
+    ];
+    let blk = |row, col, w, h| AreaS { sheet: 0, row, col, w, h };
+    for t in [
+        Op::ClearContents(blk(1, 1, 2, 2)), Op::ClearContents(blk(2, 2, 1, 1)), Op::ClearAll(blk(2, 2, 2, 2)),
+        Op::Input { sheet: 0, row: 2, col: 2, text: "5".into() },
+        Op::Input { sheet: 0, row: 2, col: 2, text: "".into() },
+        Op::Input { sheet: 0, row: 1, col: 1, text: "=C3*2".into() },
+        Op::AutoFillRows { area: blk(1, 1, 2, 1), to: 3 },
+        Op::AutoFillCols { area: blk(1, 1, 1, 2), to: 3 },
+        Op::CopyPaste { src: blk(5, 5, 2, 2), dst_sheet: 0, dst_row: 1, dst_col: 1, cut: false },
+    ] {
+        let mut sc = deps.clone(); sc.push(t); v.push(sc);
+    }
     v
 }
 
